@@ -36,6 +36,14 @@ CHECKS = {
         "Trusts stdlib ssl peer; truncation is decided per run from the live stream (record headers parsed by the harness).",
         "DESIGN.md section 3 C09",
     ),
+    "C14": (
+        "fault_enumeration",
+        "crash-point enumeration inside property-based scenarios: cancellation injected at every task step of each generated close path, closure oracle on in-memory transports",
+        "Every generated close scenario (TLS aclose/wrap against a live stdlib-ssl peer, stapled transports, endpoint, AsyncTCPNetworkClient with/without a parked sender; scripted errors of the wrapped transport) "
+        "is first run uncancelled to count its task steps, then re-run with a cancellation before every step, as task.cancel() and from an enclosing scope; afterwards every underlying transport must be closed, is_closing() true, second close prompt.",
+        "In-memory transports mark themselves closed synchronously in aclose() like the asyncio adapter; one listed known finding (D7) is reported as KNOWN-FINDING.",
+        "DESIGN.md section 3 C14",
+    ),
 }
 
 PENDING = {}
